@@ -21,6 +21,12 @@ import SpoxModel.Props.C01Build
 #print axioms C01.operands_are_contents_at_call
 #print axioms C01.aliasing_counterexample
 #print axioms C01.generated_sequence_parameters_exercised
+#print axioms C01.needed_part_decides_values
+#print axioms C01.needed_part_decides_values_checked
+#print axioms C01.needed_part_decides_denotation
+#print axioms C01.other_request_same_values
+#print axioms C01.more_outputs_irrelevant
+#print axioms C01.default_and_drop_builds_agree
 #print axioms C01Build.built_model_computes_dataflow
 #print axioms C01Build.built_models_written_differently_same_values
 #print axioms C01Build.built_model_independent_of_unused_inputs
